@@ -66,7 +66,11 @@ def interp (line : String) : Option (Option Nat × List Mem × Rule × Nat) :=
   | ["bdkg", n, honest, step, start, nsigs, reg, ev, tie] => do
     let n ← n.toNat?; let honest ← honest.toNat?; let step ← step.toNat?
     let start ← start.toNat?; let nsigs ← nsigs.toNat?; let reg ← parseTfx reg
-    let ev ← parseOptNat ev; let tie ← parseTie tie 2
+    let tie ← parseTie tie 2
+    -- `@`: the competing result was accepted during the registration pre-check, i.e. at the
+    -- start block and before every slot
+    let (ev, tie) ← if ev = "@" then some (some start, [Kind.event, Kind.slot])
+                     else (parseOptNat ev).map (fun e => (e, tie))
     if n < 1 ∨ n > 255 ∨ honest > n then none else
     pure (none, bdkgGroup n honest step start nsigs reg ev tie, bdkgRule start reg ev tie, n)
   | ["tdkg", n, q, cur, nsigs, state, w] => do
@@ -82,12 +86,52 @@ def interp (line : String) : Option (Option Nat × List Mem × Rule × Nat) :=
     pure (none, tinactGroup n h cur nsigs nonce cn w, tinactRule cur nonce cn w, n)
   | _ => none
 
+structure ApprOp where
+  n : Nat
+  submitter : Nat
+  p : Nat
+  prec : Nat
+  seats : List Nat
+  ev : Option Nat
+  tie : List Kind
+
+def parseAppr (line : String) : Option ApprOp :=
+  match splitWs line with
+  | ["tappr", n, submitter, sub, chal, prec, seats, ev, tie] => do
+    let n ← n.toNat?; let submitter ← submitter.toNat?; let sub ← sub.toNat?
+    let chal ← chal.toNat?; let prec ← prec.toNat?; let seats ← parseNats seats
+    let ev ← parseOptNat ev; let tie ← parseTie tie 2
+    if n < 1 ∨ n > 255 ∨ submitter < 1 ∨ submitter > n then none else
+    if !(seats.all (fun s => decide (1 ≤ s ∧ s ≤ n))) ∨ ¬ seats.Nodup then none else
+    pure ⟨n, submitter, precedenceStart sub chal, prec, seats, ev, tie⟩
+  | _ => none
+
+def parseTagged (pre s : String) : Option (List Nat) :=
+  if s.startsWith pre then parseNats (s.drop pre.length).toString else none
+
 def model (line : String) : String :=
-  match interp line with
-  | some (t, ms, _, _) => showGroup t ms
-  | none => "bad-op"
+  match parseAppr line with
+  | some o =>
+    let ws := apprAwaits o.submitter o.p o.prec o.seats
+    s!"W={showList ws} A={showList (apprApprovals o.tie o.ev ws)}"
+  | none =>
+    match interp line with
+    | some (t, ms, _, _) => showGroup t ms
+    | none => "bad-op"
+
+def monitorAppr (o : ApprOp) (obs : String) : String :=
+  match splitWs obs with
+  | [w, a] =>
+    match parseTagged "W=" w, parseTagged "A=" a with
+    | some ws, some as =>
+      if holdsAppr o.p o.prec o.seats.length o.tie o.ev ws as then "ok" else "FAIL approval-rule"
+    | _, _ => "FAIL unparsable-observation"
+  | _ => "FAIL unparsable-observation"
 
 def monitor (op obs : String) : String :=
+  match parseAppr op with
+  | some o => monitorAppr o obs
+  | none =>
   match interp op with
   | none => if obs = "bad-op" then "ok" else "FAIL bad-op"
   | some (_, _, rule, n) =>
